@@ -312,7 +312,9 @@ pub fn int_line_rect<S: Src>(s: &mut S, n: i8, x0: i8) {
     }
     assert!(r.intersects(&l) == want, "Rect.intersects(Line) differs from 'share a point'");
     assert!(l.intersects(&r) == want, "Line.intersects(Rect) is not symmetric");
-    vcover!(want && rect_pos(a, mn, mx) == Pos::Exterior && rect_pos(b, mn, mx) == Pos::Exterior, "segment crosses the rect with both ends outside");
+    if n >= 2 {
+        vcover!(want && rect_pos(a, mn, mx) == Pos::Exterior && rect_pos(b, mn, mx) == Pos::Exterior, "segment crosses the rect with both ends outside");
+    }
     vcover!(!want, "disjoint");
 }
 
